@@ -216,8 +216,15 @@ func fmtOne(c fmtCase, dir string, cov *Cov) *Fail {
 	}
 	want := ref.EncodeLog(nil, c.ver)
 	var positions []int64
-	for _, m := range c.msgs {
-		pos, err := w.Write(fromRef(m))
+	withNS := func(m ref.Msg, i int) klevdb.Message {
+		km := fromRef(m)
+		if m.T < math.MaxInt64-1 && m.T > math.MinInt64+1 {
+			km.Time = km.Time.Add(time.Duration((i*337 + 501) % 1000)) // sub-microsecond part: the layout keeps microseconds
+		}
+		return km
+	}
+	for mi, m := range c.msgs {
+		pos, err := w.Write(withNS(m, mi))
 		if err != nil {
 			return failf("writer:write-error", "Write: %v", err)
 		}
@@ -323,7 +330,7 @@ func fmtOne(c fmtCase, dir string, cov *Cov) *Fail {
 	var kItems []index.Item
 	var ts int64
 	for i, m := range c.msgs {
-		it := params.NewItem(fromRef(m), positions[i], ts)
+		it := params.NewItem(withNS(m, i), positions[i], ts)
 		ts = it.Timestamp
 		kItems = append(kItems, it)
 		if (ref.Item{Offset: it.Offset, Position: it.Position, Timestamp: it.Timestamp, KeyHash: it.KeyHash}) != wantItems[i] {
